@@ -75,8 +75,14 @@ def analyse(W, name, f, ctx, desc, path):
                     for t in ts:
                         if not caller_text(t.name):
                             continue
-                        if MUST_REMOVE <= t.removed:
-                            items.append(("ok", "R2", f"{entry}: {t.name} inside the comment, line breaks removed"))
+                        enclosed = path.facts.get("opt:fmt._comment_ending") == "some"
+                        if enclosed and "val:fmt._comment_ending" not in t.removed:
+                            items.append(("viol", "R2", f"{name}:closing-not-removed:{t.name}",
+                                          f"{entry}: under an enclosed comment style, caller text {t.name} reaches the delivered statement with the closing "
+                                          f"symbols not provably removed (removed: {sorted(t.removed)!r}): the text can end the comment early", where))
+                        elif MUST_REMOVE <= t.removed:
+                            items.append(("ok", "R2", f"{entry}: {t.name} inside the comment, line breaks"
+                                          + (" and closing symbols" if enclosed else "") + " removed"))
                         else:
                             items.append(("viol", "R2", f"{name}:unsanitised:{t.name}",
                                           f"{entry}: caller text {t.name} reaches the comment of a delivered statement with line breaks "
